@@ -218,6 +218,47 @@ pub fn execute(case: &str) -> String {
             let g1 = m3.get_mut(ks).map(|v| v.as_encoded_bytes().to_vec());
             let g2 = m3.get_bin_mut(ks).map(|v| v.as_encoded_bytes().to_vec());
             out.push(format!("mut {} {}", opt_hex(g1.as_deref()), opt_hex(g2.as_deref())));
+            // the accessors are implemented once per key TYPE (&str, String, &String, typed keys):
+            // every key type must give what `&str` gave
+            let sig = |get: Option<Vec<u8>>, getb: Option<Vec<u8>>, all: Vec<Vec<u8>>, allb: Vec<Vec<u8>>, has: bool, rm: Option<Vec<u8>>, rmb: Option<Vec<u8>>, ent: (bool, bool)| {
+                format!("{:?}|{:?}|{:?}|{:?}|{}|{:?}|{:?}|{:?}", get, getb, all, allb, has, rm, rmb, ent)
+            };
+            let eb = |v: &MetadataValue<Ascii>| v.as_encoded_bytes().to_vec();
+            let ebb = |v: &MetadataValue<Binary>| v.as_encoded_bytes().to_vec();
+            let base = {
+                let (mut a, mut b, mut c, mut d) = (m.clone(), m.clone(), m.clone(), m.clone());
+                sig(m.get(ks).map(eb), m.get_bin(ks).map(ebb), m.get_all(ks).iter().map(eb).collect(), m.get_all_bin(ks).iter().map(ebb).collect(), m.contains_key(ks),
+                    a.remove(ks).as_ref().map(eb), b.remove_bin(ks).as_ref().map(ebb), (c.entry(ks).is_ok(), d.entry_bin(ks).is_ok()))
+            };
+            let owned = ks.to_string();
+            let by_string = {
+                let (mut a, mut b, mut c, mut d) = (m.clone(), m.clone(), m.clone(), m.clone());
+                sig(m.get(owned.clone()).map(eb), m.get_bin(owned.clone()).map(ebb), m.get_all(owned.clone()).iter().map(eb).collect(), m.get_all_bin(owned.clone()).iter().map(ebb).collect(), m.contains_key(owned.clone()),
+                    a.remove(owned.clone()).as_ref().map(eb), b.remove_bin(owned.clone()).as_ref().map(ebb), (c.entry(owned.clone()).is_ok(), d.entry_bin(owned.clone()).is_ok()))
+            };
+            let by_ref_string = {
+                let (mut a, mut b, mut c, mut d) = (m.clone(), m.clone(), m.clone(), m.clone());
+                sig(m.get(&owned).map(eb), m.get_bin(&owned).map(ebb), m.get_all(&owned).iter().map(eb).collect(), m.get_all_bin(&owned).iter().map(ebb).collect(), m.contains_key(&owned),
+                    a.remove(&owned).as_ref().map(eb), b.remove_bin(&owned).as_ref().map(ebb), (c.entry(&owned).is_ok(), d.entry_bin(&owned).is_ok()))
+            };
+            let mut agree = base == by_string && base == by_ref_string;
+            // typed keys exist only for names of their own category: they must then find exactly
+            // what the string key found through the accessor of that category
+            if let Ok(k) = MetadataKey::<Ascii>::from_bytes(ks.as_bytes()) {
+                let mut a = m.clone();
+                agree &= m.get(&k).map(eb) == m.get(ks).map(eb)
+                    && m.get_all(&k).iter().map(eb).collect::<Vec<_>>() == m.get_all(ks).iter().map(eb).collect::<Vec<_>>()
+                    && a.remove(k.clone()).as_ref().map(eb) == m.clone().remove(ks).as_ref().map(eb)
+                    && m.get(k).map(eb) == m.get(ks).map(eb);
+            }
+            if let Ok(k) = MetadataKey::<Binary>::from_bytes(ks.as_bytes()) {
+                let mut a = m.clone();
+                agree &= m.get_bin(&k).map(ebb) == m.get_bin(ks).map(ebb)
+                    && m.get_all_bin(&k).iter().map(ebb).collect::<Vec<_>>() == m.get_all_bin(ks).iter().map(ebb).collect::<Vec<_>>()
+                    && a.remove_bin(k.clone()).as_ref().map(ebb) == m.clone().remove_bin(ks).as_ref().map(ebb)
+                    && m.get_bin(k).map(ebb) == m.get_bin(ks).map(ebb);
+            }
+            out.push(format!("kt {}", agree as u8));
             out.join(" ")
         }
         Some("iter") => {
@@ -279,7 +320,13 @@ pub fn execute(case: &str) -> String {
                 keys.iter().map(|r| r.1.clone()).collect::<Vec<_>>().join(" "),
                 vals.len(),
                 vals.iter().map(|r| r.1.clone()).collect::<Vec<_>>().join(" "),
-                (mut_tags == imm_tags) as u8
+                (mut_tags == imm_tags && {
+                    // values_mut categorises like values
+                    let mut mv = m.clone();
+                    let vm: Vec<&str> = mv.values_mut().map(|v| match v { tonic::metadata::ValueRefMut::Ascii(_) => "A", tonic::metadata::ValueRefMut::Binary(_) => "B" }).collect();
+                    let vi: Vec<&str> = m.values().map(|v| match v { ValueRef::Ascii(_) => "A", ValueRef::Binary(_) => "B" }).collect();
+                    vm == vi
+                }) as u8
             )
             .split(' ')
             .filter(|t| !t.is_empty())
